@@ -779,7 +779,10 @@ class Backend:
             envlist = []
             for k, v in env.get_env({}).items():
                 envlist.append(f'{k}={v}')
-            return ['env'] + envlist + es.cmd_args, ', '.join(reasons)
+            # Ninja cannot express a newline in a command line, such values
+            # have to go through the pickled wrapper below.
+            if not any('\n' in e or '\r' in e for e in envlist):
+                return ['env'] + envlist + es.cmd_args, ', '.join(reasons)
 
         if can_use_rsp_file and any(a.startswith(rsp_file_flag) for a in es.cmd_args):
             reasons.append('because command is too long')
